@@ -251,7 +251,7 @@ def checkXStmt (fs : List FuncDef) (pou : Pou) (ce : Bool) (Γ : Ctx) (restricte
   | .for x s e step body =>
     let ctl : Option (Option IKind) :=
       match Γ.lookup x with
-      | none => some none
+      | none => none
       | some (.int k) => some (some k)
       | some .bool => none
     match ctl with
